@@ -170,7 +170,14 @@ def worker(widx, seed, params):
             acc.labels[f_] += 1
         for p_ in plan:
             for k, c in enumerate(p_["calls"]):
-                acc.case([ir.dumps(prog), p_["mid"], c], pnt and call_nonzero(c), ["calls"], sample={"method": "%s::%s" % (p_["type"], p_["method"]), "call": c})
+                lab = ["calls"]
+                if c.get("write") is not None:
+                    if c["write"].get("fixed"):
+                        total = sum(len(x.encode("utf-8")) for x in c["write"]["chunks"])
+                        lab.append("write:fixed-buffer" + ("-overflow" if total > c["write"]["fixed"] - 1 else ""))
+                    else:
+                        lab.append("write:rust-owned")
+                acc.case([ir.dumps(prog), p_["mid"], c], pnt and call_nonzero(c), lab, sample={"method": "%s::%s" % (p_["type"], p_["method"]), "call": c})
         for sig, msg in fails:
             sig2 = sig + "|" + re.sub(r"\d+", "N", msg.split("\n")[0])[:50]
             if sig2 in known:
